@@ -434,6 +434,15 @@ void ares_event_thread_destroy(ares_channel_t *channel)
   channel->notify_pending_write_cb_data = NULL;
 }
 
+void ares_event_thread_wake_channel(const ares_channel_t *channel)
+{
+  if (channel == NULL || !(channel->optmask & ARES_OPT_EVENT_THREAD)) {
+    return;
+  }
+
+  ares_event_thread_wake(channel->sock_state_cb_data);
+}
+
 static const ares_event_sys_t *ares_event_fetch_sys(ares_evsys_t evsys)
 {
   switch (evsys) {
@@ -569,6 +578,11 @@ ares_status_t ares_event_thread_init(ares_channel_t *channel)
 }
 
 #else
+
+void ares_event_thread_wake_channel(const ares_channel_t *channel)
+{
+  (void)channel;
+}
 
 ares_status_t ares_event_thread_init(ares_channel_t *channel)
 {
